@@ -9,10 +9,16 @@
    What is NOT modelled here (glue, covered by the correspondence check only): the tokenisation of the
    barcode file and the detection of the column order in parse_barcode_file; the model starts from the
    list of (barcode, index) pairs in file order, i.e. the sequence of addBarcode calls parse_barcode_file
-   makes. *)
+   makes.
+
+   The kernel the theorems hinge on is REGENERATED from the source on every run (Gen/GenBarcode.v, written
+   by tools/c03.py regen_barcode, fail closed) and USED here: the alphabet literal and the replacement
+   range / rule of hamming_circle (gen_alphabet, gen_repl_range, gen_replace), the distance range of expand
+   (gen_dist_range), its tie test and the index of the assigned entry (gen_tie, gen_pick_index), the order of
+   the lookups (gen_lookup_order), the character class of the column detection (gen_column_class). *)
 From Coq Require Import ZArith List Bool Arith.
 Import ListNotations.
-From SCMO Require Import Lib.Val.
+From SCMO Require Import Lib.Val Lib.PyInt Gen.GenBarcode.
 
 Definition str := list Z.
 
@@ -32,10 +38,13 @@ Fixpoint str_eqb (a b : str) : bool :=
    The ORDER of the enumeration differs from itertools (combinations outermost there); the order is not
    observable through the dictionaries the instances are stored in; K compares hamming_circle with
    [circle] as sorted lists, which pins the multiset. *)
-Definition alphabet : str := [65; 67; 84; 71; 78].    (* 'ACTGN', the literal expand() passes *)
+Definition alphabet : str := gen_alphabet.             (* the literal expand() passes *)
 
+(* for r in <gen_repl_range>: alphabet[-1] if cousin[p] == alphabet[r] else alphabet[r]  (gen_replace) *)
 Definition repl (al : str) (c : Z) : list Z :=
-  map (fun a => if Z.eqb c a then last al 0 else a) (removelast al).
+  let alen := Z.of_nat (length al) in
+  let aat := fun i => nth (Z.to_nat i) al 0%Z in
+  map (fun r => gen_replace alen aat c (aat r)) (gen_repl_range alen).
 
 Fixpoint circle (al : str) (s : str) (n : nat) : list str :=
   match s with
@@ -122,9 +131,9 @@ Definition hspace := list (str * list entry).             (* hammingBarcode -> [
 Definition add_circle (b : str) (hs : hspace) (d : nat) : hspace :=
   fold_left (fun h inst => dappend inst (d, b) h) (circle alphabet b d) hs.
 
-(* for hammingDistance in range(0, hammingDistanceExpansion + 1) *)
+(* for hammingDistance in <gen_dist_range hammingDistanceExpansion> *)
 Definition add_barcode_space (k : nat) (hs : hspace) (b : str) : hspace :=
-  fold_left (add_circle b) (seq 0 (S k)) hs.
+  fold_left (add_circle b) (map Z.to_nat (gen_dist_range (Z.of_nat k))) hs.
 
 (* for barcode in barcodes *)
 Definition build_space (k : nat) (keys : list str) : hspace :=
@@ -134,16 +143,18 @@ Definition build_space (k : nat) (keys : list str) : hspace :=
 Definition resolve_step (r : res) (e : str * list entry) : res :=
   match r with
   | Ok t =>
-      match sort (snd e) with
-      | [] => IndexError
-      | x :: rest =>
-          if (match rest with y :: _ => Nat.eqb (fst x) (fst y) | [] => false end)
-          then Ok t                                        (* two origins at the same distance: continue *)
-          else match dget (snd x) (bcs t) with
-               | None => KeyError
-               | Some i => Ok (add_barcode t (fst e) i (fst x) (snd x))
-               end
-      end
+      let s := sort (snd e) in
+      let len := Z.of_nat (length s) in
+      let dist := fun i => Z.of_nat (fst (nth (Z.to_nat i) s (0%nat, []))) in
+      if gen_tie len dist
+      then Ok t                                            (* two origins at the same distance: continue *)
+      else match nth_error s (Z.to_nat (gen_pick_index len)) with
+           | None => IndexError
+           | Some x => match dget (snd x) (bcs t) with
+                       | None => KeyError
+                       | Some i => Ok (add_barcode t (fst e) i (fst x) (snd x))
+                       end
+           end
   | _ => r
   end.
 
@@ -152,11 +163,20 @@ Definition expand (k : nat) (t : tables) : res :=
 
 (* ---------------------------------------------------------------- lookup *)
 (* getIndexCorrectedBarcodeAndHammingDistance on a loaded alias; None stands for (None, None, None) *)
-Definition lookup (t : tables) (q : str) : option hit :=
-  match dget q (bcs t) with
-  | Some i => Some (i, q, 0%nat)
-  | None => dget q (ext t)
+(* the stages of the lookup, tried in the order the source lists them (gen_lookup_order):
+   0 exact table, 1 extended table, 2 load the pending alias (nothing to find in the tables themselves) *)
+Definition lookup_stage (t : tables) (q : str) (s : Z) : option hit :=
+  if Z.eqb s 0 then match dget q (bcs t) with Some i => Some (i, q, 0%nat) | None => None end
+  else if Z.eqb s 1 then dget q (ext t)
+  else None.
+
+Fixpoint lookup_stages (t : tables) (q : str) (stages : list Z) : option hit :=
+  match stages with
+  | [] => None
+  | s :: rest => match lookup_stage t q s with Some a => Some a | None => lookup_stages t q rest end
   end.
+
+Definition lookup (t : tables) (q : str) : option hit := lookup_stages t q gen_lookup_order.
 
 (* the parser with respect to one alias: pending_files[alias] present or not *)
 Record parser := { p_k : nat; p_pending : option (list (str * Z)); p_tab : tables }.
@@ -184,19 +204,26 @@ Definition lazy_init (k : nat) (lines : list (str * Z)) : parser :=
 (* getIndexCorrectedBarcodeAndHammingDistance(barcode, alias) including the lazy-load retry:
    exact table, extended table, then (alias pending) parse + expand(self.hammingDistanceExpansion)
    whatever its value, delete the pending entry, look up once more *)
-Definition get (p : parser) (q : str) : parser * answer :=
-  match lookup (p_tab p) q with
-  | Some a => (p, Ans (Some a))
-  | None =>
-      match p_pending p with
-      | None => (p, Ans None)
-      | Some lines =>
-          match expand (p_k p) (load_into (p_tab p) lines) with
-          | Ok t' => ({| p_k := p_k p; p_pending := None; p_tab := t' |}, Ans (lookup t' q))
-          | _ => (p, Raised)
-          end
-      end
+Fixpoint get_stages (p : parser) (q : str) (stages : list Z) : parser * answer :=
+  match stages with
+  | [] => (p, Ans None)
+  | s :: rest =>
+      if Z.eqb s 2 then
+        match p_pending p with
+        | None => get_stages p q rest
+        | Some lines =>
+            match expand (p_k p) (load_into (p_tab p) lines) with
+            | Ok t' => ({| p_k := p_k p; p_pending := None; p_tab := t' |}, Ans (lookup t' q))
+            | _ => (p, Raised)
+            end
+        end
+      else match lookup_stage (p_tab p) q s with
+           | Some a => (p, Ans (Some a))
+           | None => get_stages p q rest
+           end
   end.
+
+Definition get (p : parser) (q : str) : parser * answer := get_stages p q gen_lookup_order.
 
 Fixpoint answers (p : parser) (qs : list str) : list answer :=
   match qs with
@@ -248,6 +275,17 @@ Fixpoint run_ops (p : parser) (ops : list op) : list answer :=
    lazy and eager histories are compared (it never changes the state) *)
 Definition mask (a : answer) : answer :=
   match a with Counts _ _ => Counts 0 0 | _ => a end.
+
+(* ---------------------------------------------------------------- column-order detection of parse_barcode_file
+   rows: the two tokens of each 2-column line.  First pass: indexFirst = not all(c in <gen_column_class>
+   for c in parts[0]); indexNotFirst = some line has a first token made of class characters only.
+   Second pass: (barcode, index) = parts if indexNotFirst else (index, barcode) = parts. *)
+Definition is_barcode_token (tok : str) : bool :=
+  forallb (fun c => existsb (Z.eqb c) gen_column_class) tok.
+Definition index_not_first (rows : list (str * str)) : bool :=
+  existsb (fun r => is_barcode_token (fst r)) rows.
+Definition parse_rows (rows : list (str * str)) : list (str * str) :=      (* (barcode, index token) *)
+  if index_not_first rows then rows else map (fun r => (snd r, fst r)) rows.
 
 (* ---------------------------------------------------------------- boolean specification *)
 Definition in_alphabet (s : str) : bool := forallb (fun c => existsb (Z.eqb c) alphabet) s.
@@ -315,7 +353,8 @@ Definition dec_op (v : Val) : op :=
    mode 2: input = [[lines; k; queries; lazy]; outputs]  ->  [specb ... per query]
    mode 3: input = [s; n] -> circle alphabet s n (model order)
    mode 4: input = [lines; k] -> the tables after eager loading (exact, extended)
-   mode 5: input = [lines; k; ops; lazy] -> answers of the parser to the operation history *)
+   mode 5: input = [lines; k; ops; lazy] -> answers of the parser to the operation history
+   mode 6: input = [[tok0; tok1] ...] -> parse_rows: [[barcode; index token] ...] *)
 Definition run_C03 (mode : Z) (v : Val) : Val :=
   match mode with
   | 0 => let lines := dec_lines (nthV 0 v) in
@@ -351,5 +390,7 @@ Definition run_C03 (mode : Z) (v : Val) : Val :=
               | Some p => VL (map enc_answer (run_ops p ops))
               | None => VL [VZ (-1)]
               end
+  | 6 => VL (map (fun r => VL [ofZs (fst r); ofZs (snd r)])
+                 (parse_rows (map (fun r => (getZs (nthV 0 r), getZs (nthV 1 r))) (getL v))))
   | _ => bad
   end.
